@@ -648,9 +648,30 @@ pub struct AccOutcome
     pub panicked: Option<String>,
 }
 
+fn probe_ins<C: Val, const I: u8>(ev: InsertionEvent<C>)
+{
+    if let Ok(e) = ev.get() { log_obs(Obs::Ins{ c: I, e: pool_index(e), scoped: false }); }
+}
+
+fn probe_mut<C: Val, const I: u8>(ev: MutationEvent<C>)
+{
+    if let Ok(e) = ev.get() { log_obs(Obs::Mut{ c: I, e: pool_index(e), scoped: false }); }
+}
+
 fn run_case_inner(case: &AccCase, out: &mut AccOutcome)
 {
     let mut app = App::new();
+    // in half of the cases the type-wide probes are App-level reactors added BEFORE the plugin (either order is supported)
+    let plugin_last = case.comps.len() % 2 == 0;
+    if plugin_last
+    {
+        app.add_reactor(insertion::<CA>(), probe_ins::<CA, 0>);
+        app.add_reactor(insertion::<CB>(), probe_ins::<CB, 1>);
+        app.add_reactor(mutation::<CA>(), probe_mut::<CA, 0>);
+        app.add_reactor(mutation::<CB>(), probe_mut::<CB, 1>);
+        app.add_reactor(resource_mutation::<RA>(), || log_obs(Obs::Res{ r: 0 }));
+        app.add_reactor(resource_mutation::<RB>(), || log_obs(Obs::Res{ r: 1 }));
+    }
     app.add_plugins(ReactPlugin);
     app.insert_react_resource(RA(0));
     app.insert_react_resource(RB(0));
@@ -662,14 +683,17 @@ fn run_case_inner(case: &AccCase, out: &mut AccOutcome)
     let mut model = Model{ alive: vec![true; n], comp: vec![[None, None]; n], res: [0, 0] };
 
     // probes first, so the initial inserts are observed too
-    world.react(|rc| {
-        rc.on_persistent(insertion::<CA>(), |ev: InsertionEvent<CA>| { if let Ok(e) = ev.get() { log_obs(Obs::Ins{ c: 0, e: pool_index(e), scoped: false }); } });
-        rc.on_persistent(insertion::<CB>(), |ev: InsertionEvent<CB>| { if let Ok(e) = ev.get() { log_obs(Obs::Ins{ c: 1, e: pool_index(e), scoped: false }); } });
-        rc.on_persistent(mutation::<CA>(), |ev: MutationEvent<CA>| { if let Ok(e) = ev.get() { log_obs(Obs::Mut{ c: 0, e: pool_index(e), scoped: false }); } });
-        rc.on_persistent(mutation::<CB>(), |ev: MutationEvent<CB>| { if let Ok(e) = ev.get() { log_obs(Obs::Mut{ c: 1, e: pool_index(e), scoped: false }); } });
-        rc.on_persistent(resource_mutation::<RA>(), || log_obs(Obs::Res{ r: 0 }));
-        rc.on_persistent(resource_mutation::<RB>(), || log_obs(Obs::Res{ r: 1 }));
-    });
+    if !plugin_last
+    {
+        world.react(|rc| {
+            rc.on_persistent(insertion::<CA>(), probe_ins::<CA, 0>);
+            rc.on_persistent(insertion::<CB>(), probe_ins::<CB, 1>);
+            rc.on_persistent(mutation::<CA>(), probe_mut::<CA, 0>);
+            rc.on_persistent(mutation::<CB>(), probe_mut::<CB, 1>);
+            rc.on_persistent(resource_mutation::<RA>(), || log_obs(Obs::Res{ r: 0 }));
+            rc.on_persistent(resource_mutation::<RB>(), || log_obs(Obs::Res{ r: 1 }));
+        });
+    }
     for e in pool.iter().copied()
     {
         world.react(|rc| {
